@@ -797,6 +797,7 @@ class Interp:
         "where": ("add", "subtract", "multiply", "divide", "true_divide", "power", "negative", "square", "reciprocal", "positive", "less", "less_equal", "greater",
                   "greater_equal", "equal", "not_equal", "copyto"),
         "order": ("ravel", "flatten", "reshape", "unravel_index", "copy"),
+        "initial": ("max", "min", "amax", "amin", "nanmax", "nanmin"),
         "axis": ("sum", "cumsum", "max", "min", "amax", "amin", "nanmax", "nanmin", "any", "all", "expand_dims", "moveaxis", "diff", "take", "flip", "gradient",
                  "concatenate", "stack", "squeeze", "argmax", "argmin", "mean", "prod", "count_nonzero", "diagonal", "swapaxes", "apply_along_axis", "cumprod", "tile", "repeat", "insert", "delete"),
     }
@@ -1051,7 +1052,17 @@ class Interp:
         if name == "sum":
             return lambda a, axis=None, **kw: (NP.reduce_all(a) if axis is None else I._reduce_axes(a, axis))
         if name in ("max", "min", "amax", "amin", "nanmax", "nanmin"):
-            return lambda a, axis=None, **kw: NP.reduce_all(a, name) if axis is None else (_ for _ in ()).throw(AnalysisAbort("np.max with axis"))
+            def extremum(a, axis=None, initial=None, **kw):
+                if axis is not None:
+                    raise AnalysisAbort(f"np.{name} with axis")
+                r = NP.reduce_all(a, name)
+                if initial is None:
+                    return r
+                t = a.term if isinstance(a, AArr) else None
+                if "max" in name and isinstance(initial, (int, float)) and initial == 0 and isinstance(t, tuple) and t[0] == "fn" and t[1] == "abs":
+                    return r            # the largest of non-negative numbers and 0
+                return SymScalar(NP.t_fn("pymax" if "max" in name else "pymin", NP.as_term(r), NP.as_term(initial)))
+            return extremum
         if name == "count_nonzero":
             def cnz(a, **k):
                 if isinstance(a, NP.IdxArr):
